@@ -231,6 +231,26 @@ impl<A, S: Data<Elem = A>, S2: Data<Elem = A>> Dot<ArrayBase<S2, Ix1>> for Array
     fn dot(&self, rhs: &ArrayBase<S2, Ix1>) -> (out: Array1<A>) { unimplemented!() }
 }
 
+// ---- boolean vectors (result of `.map(|x| *x <= 0.)` in evaluate_decision, rule C1)
+impl ArrayBase<OwnedRepr<bool>, Ix1> {
+    pub uninterp spec fn bv(&self) -> Seq<bool>;
+    #[verifier::external_body]
+    pub fn len_of_b(&self, axis: Axis) -> (r: usize)
+        requires axis.0 < 1
+        ensures r == self.bv().len()
+    { unimplemented!() }
+    #[verifier::external_body]
+    pub fn at_b(&self, i: usize) -> (r: bool)
+        requires i < self.bv().len()
+        ensures r == self.bv()[i as int]
+    { unimplemented!() }
+}
+// what `arr.map(|x| *x <= 0.)` computes
+#[verifier::external_body]
+pub fn nd_le_zero(arr: &Array1<f64>) -> (r: ArrayBase<OwnedRepr<bool>, Ix1>)
+    ensures r.bv().len() == arr.v().len(), forall|i: int| 0 <= i < arr.v().len() ==> r.bv()[i] == (arr.v()[i] <= 0real)
+{ unimplemented!() }
+
 // ---- concatenation along axis 0 (`concatenate![Axis(0), a, b]`)
 pub trait NdConcat<Rhs> {
     type Output;
